@@ -463,8 +463,10 @@ func (vc *VC) appendBuiltin(c *ssa.CallCommon, rt types.Type) SVal {
 		srcA := vc.def("aps", arrSort(sorts[i]), sel(M, t.obj()))
 		// old elements preserved
 		// (absolute index j; the trigger is any read of the new array)
-		vc.emit(fmt.Sprintf("(assert (forall ((j Int)) (! (=> (and (<= %s j) (< j (+ %s (* %s %s)))) (= (select %s j) (select %s (+ (- j %s) %s)))) :pattern ((select %s j)))))",
-			r.off(), r.off(), s.ln(), fl, a, oldR, r.off(), s.off(), a))
+		// (the source index is written idx(off, k) so that quantified facts about the old slice,
+		// whose elements are addressed idx(off, i), are instantiated at k)
+		vc.emit(fmt.Sprintf("(assert (forall ((j Int)) (! (=> (and (<= %s j) (< j (+ %s (* %s %s)))) (= (select %s j) (select %s (idx %s (- j %s))))) :pattern ((select %s j)))))",
+			r.off(), r.off(), s.ln(), fl, a, oldR, s.off(), r.off(), a))
 		// appended elements
 		vc.emit(fmt.Sprintf("(assert (forall ((j Int)) (! (=> (and (<= (+ %s (* %s %s)) j) (< j (+ %s (* %s %s)))) (= (select %s j) (select %s (+ (- j (+ %s (* %s %s))) %s)))) :pattern ((select %s j)))))",
 			r.off(), s.ln(), fl, r.off(), newLen, fl, a, srcA, r.off(), s.ln(), fl, t.off(), a))
